@@ -569,4 +569,31 @@ def submit (s : Pool) (t : Tx) (st : Status) (ts : Nat) : Pool × SubmitRes :=
       if t.id ∈ lim then (s3, .full replaced ev lim) else (s3, .ok replaced ev lim)
     | (s2, r) => (s2, .add r)
 
+/-! ## `_update_tx_pool_for_reorg` (process.rs), mine mode, for a chain extension (no re-added transactions) -/
+
+/-- the `proposed_rtx` / `gap_rtx` loops of `_update_tx_pool_for_reorg` (mine mode): gap entries whose id is
+    now in the proposed set, then pending entries that are now proposed, become `Proposed`; pending entries
+    that are only in the gap set become `Gap` (`set_entry`) -/
+def promote (s : Pool) (gapNow propNow : List Nat) : Pool :=
+  let toProposed :=
+    ((s.entries.filter fun e => e.status = .gap ∧ e.tx.id ∈ propNow) ++
+      (s.entries.filter fun e => e.status = .pending ∧ e.tx.id ∈ propNow)).map (·.tx.id)
+  let toGap := (s.entries.filter fun e => e.status = .pending ∧ e.tx.id ∉ propNow ∧ e.tx.id ∈ gapNow).map (·.tx.id)
+  let s := toProposed.foldl (fun s id => setEntry s id .proposed) s
+  toGap.foldl (fun s id => setEntry s id .gap) s
+
+/-- `_update_tx_pool_for_reorg` for attached blocks only: the pool's snapshot moves to the new tip (the
+    committed transactions become chain transactions), `remove_committed_txs` (every attached transaction in
+    block order, then the detached headers), `remove_by_detached_proposal` (ids that left the proposal
+    window), the mine-mode status promotion, `remove_expired` at time `now` (slab order = insertion order of
+    the entries), `limit_size`. -/
+def updateForBlock (s : Pool) (committed : List Tx) (detachedHdrs detachedProps gapNow propNow : List Nat) (now : Nat) : Pool :=
+  let s := { s with chain := s.chain ++ committed.map (·.id) }
+  let s := committed.foldl (fun s t => (commitTx s t).1) s
+  let s := if detachedHdrs.isEmpty then s else (resolveHeaders s detachedHdrs).1
+  let s := detachProposals s detachedProps
+  let s := promote s gapNow propNow
+  let s := removeExpired s (expiredIds s now)
+  (limitSize s).1
+
 end CkbVerif.Pool
